@@ -921,6 +921,7 @@ def safety_oracle(ops, obs, cfg=None):
     configuration the run started with (a 'cfg' op replaces it; it takes effect at the next reset)."""
     bad = []
     ends = 0; aborted = False; sasl_acked = False; welcomed = False
+    answered = set()          # every capability the server ACKed or NAKed in this epoch
     prev = obs[0]
     cfg_next = cfg; cfg_epoch = cfg; changed = False
     for op, o in zip(ops, obs[1:]):
@@ -931,7 +932,7 @@ def safety_oracle(ops, obs, cfg=None):
             prev = o
             continue
         if op[0] == 'reset':
-            ends = 0; aborted = False; sasl_acked = False; welcomed = False
+            ends = 0; aborted = False; sasl_acked = False; welcomed = False; answered = set()
             cfg_epoch = cfg_next
             if not changed and o.s.split('\t')[:13] != obs[0].s.split('\t')[:13]:
                 bad.append(('reset_fresh', 'after reset the observable state differs from a new Irc: %r vs %r' % (o.s, obs[0].s)))
@@ -983,6 +984,17 @@ def safety_oracle(ops, obs, cfg=None):
             if len(t) >= 4 and t[0] == 'CAP' and t[2] == 'LS' and t[3].startswith(':') and prev.fsm == 'INIT_CAP_NEGOTIATION':
                 if not o.calls and not any(m.command == 'CAP' and m.args[:1] in (('REQ',), ('END',)) for m in o.msgs):
                     bad.append(('progress', 'the final CAP LS %r was answered neither by CAP REQ nor by CAP END nor by an abort (state %s): the bot waits for something the server will not send' % (trigger, o.fsm)))
+            # once the server has answered every capability the bot requested (ACK or NAK, a later CAP DEL does not
+            # take an answer back), the ACK / NAK that completes the answers ends the negotiation: CAP END, the SASL
+            # exchange, or an abort
+            if len(t) == 4 and t[0] == 'CAP' and t[2] in ('ACK', 'NAK') and t[3].startswith(':') and prev.fsm == 'INIT_CAP_NEGOTIATION':
+                m_ = parse_line(boot(), trigger)
+                words = m_.args[2].split() if m_ is not None and len(m_.args) == 3 else []
+                answered |= set(words)
+                if words and o.exc == '-' and not o.calls and o.fsm == 'INIT_CAP_NEGOTIATION' and o.req <= answered and not prev.auth:
+                    bad.append(('progress', 'every requested capability %r has been answered by the server, but %r ended the negotiation neither by CAP END nor by AUTHENTICATE nor by an abort' % (sorted(o.req), trigger)))
+            if o.exc == 'TypeError':
+                bad.append(('progress', 'the handler of %r raised TypeError (state %s, sent %r)' % (trigger, o.fsm, [(m.command,) + tuple(m.args) for m in o.msgs])))
             # the credentials of one answer end with a line shorter than the chunk size (or `+`): the server
             # takes a line of exactly AUTHENTICATE_CHUNK_SIZE characters as "more follows"
             pay = [m.args[0] for m in o.msgs if m.command == 'AUTHENTICATE' and m.args and not is_mech(m.args[0])]
